@@ -82,7 +82,7 @@ func tierBatch(root string, r *hx.Rng, k int) (out []emitted, err error) {
 				td := pickDur(cr, ps.endRel, G)
 				if td < 0 {
 					td = -td
-					for abs(ps.endRel+td) < margin {
+					for abs(addSat(ps.endRel, td)) < margin {
 						td += margin
 					}
 				}
@@ -124,7 +124,7 @@ func tierBatch(root string, r *hx.Rng, k int) (out []emitted, err error) {
 		// the property: handed to the mover <=> tier duration set, end + tierDuration passed, not cold;
 		// the two-index-less shard objects of the pool keep tier 0 / duration 0 and never move
 		for _, x := range items {
-			due := x.td != 0 && x.rel+x.td < 0 && x.tier != 3
+			due := x.td != 0 && addSat(x.rel, x.td) < 0 && x.tier != 3
 			if (inW[x.sid] || inC[x.sid]) != due {
 				em.viol = append(em.viol, [2]string{"tier-move-wrong", fmt.Sprintf("shard %d tier %d tierDuration %d end %+d: handed to the mover %v, due %v", x.sid, x.tier, x.td, x.rel, inW[x.sid] || inC[x.sid], due)})
 			}
